@@ -258,6 +258,20 @@ func locallyIdempotent(m *ssa.Function) string {
 				okCond = true
 			}
 		}
+		// or it happens unconditionally in the critical section that read the flag (`old, c.closed = c.closed, true`):
+		// writing true over true changes nothing
+		if !okCond && core.InstrDominates(flagLoad, flagStore) {
+			okCond = true
+			for _, call := range core.Calls(m) {
+				n := core.CallName(call)
+				if _, isDefer := call.(*ssa.Defer); isDefer {
+					continue
+				}
+				if (n == "(*sync.Mutex).Unlock" || n == "(*sync.RWMutex).Unlock") && core.InstrDominates(flagLoad, call) && core.InstrDominates(call, flagStore) {
+					okCond = false
+				}
+			}
+		}
 		// the true edge leads to return without other effects than Unlock
 		lockHeld := false
 		for _, call := range core.Calls(m) {
@@ -295,8 +309,15 @@ func locallyIdempotent(m *ssa.Function) string {
 	for _, call := range core.Calls(m) {
 		h := core.StaticCallee(call)
 		cv, isVal := call.(*ssa.Call)
-		if h == nil || !isVal || h.Blocks == nil || h.Signature.Recv() == nil || len(cv.Call.Args) == 0 || !isReceiverOf(cv.Call.Args[0], m) || !testAndSetClosed(h) {
+		if h == nil || !isVal || h.Blocks == nil || h.Signature.Recv() == nil || len(cv.Call.Args) == 0 || !isReceiverOf(cv.Call.Args[0], m) {
 			continue
+		}
+		first := true // the value the helper returns to the call that made the transition
+		if !testAndSetClosed(h) {
+			if !swapClosed(h) {
+				continue
+			}
+			first = false // the helper returns the previous value of the flag
 		}
 		allGuarded := true
 		for _, c2 := range core.Calls(m) {
@@ -308,10 +329,10 @@ func locallyIdempotent(m *ssa.Function) string {
 			}
 			guarded := false
 			for _, cnd := range core.CondsAt(c2.Block()) {
-				if cnd.Cond == ssa.Value(cv) && cnd.Val {
+				if cnd.Cond == ssa.Value(cv) && cnd.Val == first {
 					guarded = true
 				}
-				if u, ok := cnd.Cond.(*ssa.UnOp); ok && u.Op == token.NOT && u.X == ssa.Value(cv) && !cnd.Val {
+				if u, ok := cnd.Cond.(*ssa.UnOp); ok && u.Op == token.NOT && u.X == ssa.Value(cv) && cnd.Val != first {
 					guarded = true
 				}
 			}
@@ -393,6 +414,61 @@ func testAndSetClosed(h *ssa.Function) bool {
 			return false
 		}
 		if b && !core.InstrDominates(flagStore, ret) {
+			return false
+		}
+	}
+	return true
+}
+
+// swapClosed: h() bool locks the receiver's mutex, stores true into the `closed` flag unconditionally and returns the
+// value the flag had before (`old, c.closed = c.closed, true`).
+func swapClosed(h *ssa.Function) bool {
+	if h.Signature.Results().Len() != 1 || h.Signature.Results().At(0).Type().String() != "bool" {
+		return false
+	}
+	var loads []*ssa.UnOp
+	var stores []*ssa.Store
+	core.EachInstr(h, func(_ *ssa.BasicBlock, _ int, in ssa.Instruction) {
+		switch x := in.(type) {
+		case *ssa.UnOp:
+			if fa, ok := x.X.(*ssa.FieldAddr); ok && x.Op == token.MUL && core.FieldAddrRef(fa).Name == "closed" && isReceiverOf(fa.X, h) {
+				loads = append(loads, x)
+			}
+		case *ssa.Store:
+			if fa, ok := x.Addr.(*ssa.FieldAddr); ok && core.FieldAddrRef(fa).Name == "closed" && isReceiverOf(fa.X, h) {
+				stores = append(stores, x)
+			}
+		}
+	})
+	if len(loads) != 1 || len(stores) != 1 {
+		return false
+	}
+	if b, ok := core.ConstBool(stores[0].Val); !ok || !b {
+		return false
+	}
+	locked := false
+	for _, call := range core.Calls(h) {
+		n := core.CallName(call)
+		if _, isDefer := call.(*ssa.Defer); isDefer {
+			continue
+		}
+		if (n == "(*sync.Mutex).Lock" || n == "(*sync.RWMutex).Lock") && core.InstrDominates(call, loads[0]) {
+			locked = true
+		}
+		// no unlock between the load and the store
+		if (n == "(*sync.Mutex).Unlock" || n == "(*sync.RWMutex).Unlock") && !core.InstrDominates(stores[0], call) {
+			return false
+		}
+	}
+	if !locked || !core.InstrDominates(loads[0], stores[0]) {
+		return false
+	}
+	rets := returnsOf(h)
+	if len(rets) == 0 {
+		return false
+	}
+	for _, ret := range rets {
+		if core.Unspill(core.ReturnResults(ret)[0]) != ssa.Value(loads[0]) {
 			return false
 		}
 	}
